@@ -76,9 +76,14 @@ class IOGen:
         if c < .5:      # (\a. BODY) ACTION : the action value is passed as an argument; BODY may use it 0, 1 or several times
             return f"({s.gen(d - 1, ctx)} ({s.gen(d - 1, ctx + ['act'])} ㅎ) ㅎㄴ)"
         m = s.gen(d - 1, ctx)
-        f = "((ㄱㅇㄱ ㄷㅂㅎㄴ ㄷㅈㅎㄴ) ㅎ)" if R.random() < .12 else f"({s.gen(d - 1, ctx + ['val'])} ㅎ)"
+        def fun():
+            c = R.random()
+            if c < .12: return "((ㄱㅇㄱ ㄷㅂㅎㄴ ㄷㅈㅎㄴ) ㅎ)"            # throws instead of producing an action
+            if c < .2: return R.choice(["(ㄱ ㅎ)", "(ㄱㅇㄱ ㅎ)", "(ㅂㄱㅎㄱ ㅎ)"])       # returns something that is not an action
+            return f"({s.gen(d - 1, ctx + ['val'])} ㅎ)"
+        f = fun()
         if R.random() < .6: return f"({m} {f} ㄱㄹㅎㄷ)"
-        return f"({m} {f} ({s.gen(d - 1, ctx + ['val'])} ㅎ) ㄱㄹㅎㄹ)"
+        return f"({m} {f} {fun()} ㄱㄹㅎㄹ)"
 def io_text_closed(R, d):
     g = IOGen(R); t = g.gen(d, []); return t, g.leaves, g.shared_uses
 
@@ -191,6 +196,7 @@ def int_kernels(r, seed, tier, model_ok):
             cases.append(dict(text=f"{E(b)} {E(e)} ㅅㅎㄷ", trace=False)); want.append(str(b ** e))
         else:
             b = big() % 10**12; e = R.randrange(-40, 200); m = R.choice([-1, 1]) * (R.getrandbits(R.choice([4, 16, 64])) + 2)
+            if R.random() < .3: b = R.choice([0, 1, -1, 2, b, big()]); e = R.choice([0, 0, 1, -1, 2, e]); m = R.choice([1, -1, 2, -2, 3, m])          # edge values: exponent 0, modulus +-1
             cases.append(dict(text=f"{E(b)} {E(e)} {E(m)} ㅅㅎㄹ", trace=False))
             try: want.append(str(pow(b, e, abs(m))))
             except ValueError: want.append("E 5,-54")
